@@ -8,6 +8,7 @@ solver query (sliced to the constraints that share variables with the flipped li
 when it is popped.
 """
 import os
+import sys
 import time
 import z3
 from . import z
@@ -140,7 +141,8 @@ def mval(model, e):
 
 
 class Ctx(object):
-    def __init__(self, prefix, parent_model):
+    def __init__(self, prefix, parent_model, sigs=()):
+        self.sigs = list(sigs)
         self.prefix = list(prefix)
         self.pos = 0
         self.pc = []
@@ -154,6 +156,7 @@ class Ctx(object):
         self.inputs = {}  # name -> symbolic input (for concretisation)
         self.known_exclusions = []  # z3 Bool exprs conjoined to obligation queries
         self.lits = {}  # AST id of a decided condition -> direction taken
+        self._keep = []
 
     # ---------------------------------------------------------------- model handling
     def replaying(self):
@@ -184,36 +187,53 @@ class Ctx(object):
         c = z._cb(cond)
         if c is not None:
             return c
-        cond = z.simp(cond)
-        if not z.is_sym(cond):
-            return bool(cond)
+        # The cache of decided conditions is keyed by the *unsimplified* AST: z3's simplifier
+        # orders AC arguments by AST id, which depends on what earlier runs left alive, so
+        # simplified forms are not stable between a path and its replays.
         k = cond.get_id()
         if k in self.lits:
             return self.lits[k]
-        if z3.is_not(cond) and cond.arg(0).get_id() in self.lits:
-            return not self.lits[cond.arg(0).get_id()]
-        d = self._decide(cond)
+        if z3.is_not(cond):
+            ka = cond.arg(0).get_id()
+            if ka in self.lits:
+                return not self.lits[ka]
+        sc = z.simp(cond)
+        if not z.is_sym(sc):
+            return bool(sc)
+        d = self._decide(sc)
         self.lits[k] = d
-        self._keep = getattr(self, "_keep", [])
-        self._keep.append(cond)  # keep the AST alive so that ids stay unique
+        self._keep.append(cond)  # keep the AST alive so that its id stays unique
         return d
+
+    def _site(self):
+        """signature of the code location asking for a decision (replay-divergence guard)"""
+        f = sys._getframe(3)
+        n = 0
+        while f is not None and n < 12:
+            fn = f.f_code.co_filename
+            if "/symlas/" not in fn:
+                return hash((fn, f.f_lineno)) & 0xFFFFFF
+            f = f.f_back
+            n += 1
+        return 0
 
     def _decide(self, cond):
         STATS.decisions += 1
+        site = self._site()
         if self.pos < len(self.prefix):
+            if self.pos < len(self.sigs) and self.sigs[self.pos] != site:
+                raise Inconclusive("replay diverged from the recorded path at decision %d (non-deterministic harness or engine)" % self.pos)
             d = self.prefix[self.pos]
             lit = cond if d else z3.Not(cond)
             last = self.pos == len(self.prefix) - 1
             self.pos += 1
             if last:
-                # the flipped decision: is it feasible?
-                sl, _ = slice_constraints(self.pc, [lit])
-                r, m = solve(sl + [lit])
-                if r == "unsat":
-                    raise Abort("infeasible flip")
+                # the flipped decision: its feasibility was established (and a model found) when
+                # it was queued, so no query and no wasted re-execution of infeasible flips
                 self.pc.append(lit)
-                self.model = merge_models(self.parent_model, m)
-                # the merged model must satisfy everything (slicing argument); cheap sanity check on the literal
+                self.model = self.parent_model
+                if self.model is None or mval(self.model, lit) is not True:
+                    raise Inconclusive("queued flip is not satisfied by its recorded model (engine error)")
             else:
                 self.pc.append(lit)
                 if self.model is not None and mval(self.model, lit) is not True:
@@ -221,7 +241,14 @@ class Ctx(object):
             return d
         m = self.ensure_model()
         d = mval(m, cond)
-        self.children.append((self.prefix[: self.pos] + [not d], m))
+        self.sigs = self.sigs[: self.pos] + [site]
+        flip = z3.Not(cond) if d else cond
+        sl, _ = slice_constraints(self.pc, [flip])
+        r, m2 = solve(sl + [flip])
+        if r == "sat":
+            self.children.append((self.prefix[: self.pos] + [not d], merge_models(m, m2), list(self.sigs)))
+        else:
+            STATS.infeasible += 1
         self.prefix.append(d)
         self.pos += 1
         self.pc.append(cond if d else z3.Not(cond))
@@ -269,6 +296,28 @@ def fresh_name(base):
     c = ctx()
     c.fresh += 1
     return "%s!%d" % (base, c.fresh)
+
+
+OPTS = {"concretize": False}
+
+
+def try_concretize(e):
+    """if the path condition forces a single value for the int expression e, return that
+    constant (one query), else e.  Turns positions that are fixed by the preconditions (e.g.
+    regex group boundaries inside a mostly concrete line) into Python ints, so that everything
+    downstream folds."""
+    if not z.is_sym(e) or not OPTS["concretize"] or CTX is None:
+        return e
+    e2 = z.simp(e)
+    if not z.is_sym(e2):
+        return e2
+    c = CTX
+    m = c.ensure_model()
+    v = mval(m, e2)
+    neq = z.Not(z.eq_i(e2, v))
+    if c.check_sat([neq]) is None:
+        return v
+    return e
 
 
 WITNESSED = set()
@@ -347,7 +396,7 @@ def oblige(name, expr, inputs=None, info=None):
 def explore(fn, max_paths=100000, deadline=None, on_path=None):
     """run fn() over all feasible paths.  Returns list of per-path records."""
     global CTX
-    pending = [([], None)]
+    pending = [([], None, [])]
     records = []
     witnessed = set()
     WITNESSED.clear()
@@ -356,8 +405,8 @@ def explore(fn, max_paths=100000, deadline=None, on_path=None):
             raise Inconclusive("path bound %d reached with %d prefixes pending" % (max_paths, len(pending)))
         if deadline is not None and time.time() > deadline:
             raise Inconclusive("time budget exhausted with %d prefixes pending" % len(pending))
-        pre, pm = pending.pop()
-        c = CTX = Ctx(pre, pm)
+        pre, pm, sg = pending.pop()
+        c = CTX = Ctx(pre, pm, sg)
         try:
             res = fn()
         except OutOfBound:
